@@ -110,7 +110,8 @@ def digest(obj) -> str:
     return hashlib.blake2b(repr(obj).encode("utf-8", "backslashreplace"), digest_size=8).hexdigest()
 
 
-class _Timeout(Exception):
+class _Timeout(BaseException):
+    # BaseException: neither sqlfluff's nor a check's own `except Exception` may mistake the alarm for a finding
     pass
 
 
@@ -154,10 +155,15 @@ def _run_chunk_inner(pid: str, chunk: list):
     for case in chunk:
         signal.alarm(case_timeout)
         try:
-            r = m.run_case(case)
+            try:
+                r = m.run_case(case)
+            except _Timeout:
+                # one retry with a 4x budget: a loaded machine must not turn into an alarm, a real hang still does
+                signal.alarm(case_timeout * 4)
+                r = m.run_case(case)
         except _Timeout:
             agg["n"] += 1
-            agg["harness_errors"].append({"case": case, "error": "timeout"})
+            agg["harness_errors"].append({"case": case, "error": "timeout (twice; second budget %ds)" % (case_timeout * 4)})
             continue
         except Exception:
             agg["harness_errors"].append({"case": case, "error": traceback.format_exc()[-1500:]})
